@@ -431,6 +431,35 @@ func main() {
 		}
 		return leanStrList("locationHeaders", locs)
 	})
+	table(&b, "ageFormat", func() string {
+		// how SetAgeHeader turns the age into text: the strconv function and the integer type the seconds are
+		// converted to on the way ("Itoa/int" is 32 bits wide on 32-bit platforms: Age: 2147483648 prints negative)
+		hp := parse(root, "internal/helpers.go")
+		fd := funcDecl(hp, "SetAgeHeader")
+		desc := ""
+		ast.Inspect(fd, func(n ast.Node) bool {
+			call, ok := n.(*ast.CallExpr)
+			if !ok {
+				return true
+			}
+			if se, ok := call.Fun.(*ast.SelectorExpr); ok {
+				if x, ok := se.X.(*ast.Ident); ok && x.Name == "strconv" && len(call.Args) > 0 {
+					conv := "?"
+					if c, ok := call.Args[0].(*ast.CallExpr); ok {
+						if id, ok := c.Fun.(*ast.Ident); ok {
+							conv = id.Name
+						}
+					}
+					desc = "strconv." + se.Sel.Name + "/" + conv
+				}
+			}
+			return true
+		})
+		if desc == "" {
+			fail("SetAgeHeader: no strconv call found")
+		}
+		return fmt.Sprintf("def ageFormat : String := %s\n", strconv.Quote(desc))
+	})
 	table(&b, "cacheStatusHeader fromCacheHeader fromCache cacheStatuses", func() string {
 		hd := parse(root, "internal/header.go")
 		out := ""
